@@ -255,6 +255,14 @@ def run(ctx, chk):
     sub1 = Sub(chk, "C11-e", lambda r: r.startswith("C01-d/"), instance_filter=lambda i: "feig::packets::tlv" in str(i))
     rules_c01._run_own(ctx, sub1)
     chk.floor("raw payload framing obligations (shared with C01-d)", sub1.count, 3)
+    # a data block reaches the terminal as an APDU: a body of exactly 255 bytes must take the extended form (C16-b / C04-d)
+    import rules_c16
+    import rules_c04
+    sub16 = Sub(chk, "C11-e", lambda r: r.startswith("C16-b/"), instance_filter=lambda i: str(i).startswith("Adpu"))
+    rules_c16.run(ctx, sub16)
+    sub4 = Sub(chk, "C11-e", lambda r: r.startswith("C04-d/"))
+    rules_c04.run(ctx, sub4)
+    chk.floor("APDU length-form obligations (shared with C16-b / C04-d)", sub16.count + sub4.count, 6)
     chk.floor("C11 obligations", len(chk.obligations), 14)
 
 
